@@ -83,11 +83,20 @@ deriving Repr, DecidableEq
     `propagate engine reverse startOp startCfg maxlen left right`: `engine` 0 = engines[-1][0],
     1 = engines[0][0]; `startCfg` = content of the initial configuration file handed to
     `_propagate_from` (after the velocity reversal); `maxlen` of the path to fill.
-    `dump engine tag cfg`: `dump_phasepoint` (tag 1 = "second", 0 = "second_last"). -/
+    `dump engine tag cfg`: `dump_phasepoint` (tag 1 = "second", 0 = "second_last").
+    `fresh`: the `System` object handed to the engine is a COPY (`.copy()`), not a frame object of one
+    of the old paths.  Both `propagate` (re-points `config` to a scratch file, forces `vel_rev`) and
+    `dump_phasepoint` (`set_pos`) mutate the object they are given, so an old path stays untouched
+    exactly when every request is fresh; the code copies at every such spot and the model records it. -/
 inductive Req
   | propagate (engine : Nat) (reverse : Bool) (startOp : Int) (startCfg : Cfg) (maxlen : Nat) (left right : Int)
-  | dump (engine : Nat) (tag : Nat) (cfg : Cfg)
+      (fresh : Bool)
+  | dump (engine : Nat) (tag : Nat) (cfg : Cfg) (fresh : Bool)
 deriving Repr, DecidableEq
+
+def Req.fresh : Req → Bool
+  | .propagate _ _ _ _ _ _ _ f => f
+  | .dump _ _ _ f => f
 
 /-- ensemble settings as read by the swap functions: interfaces, tis_set["maxlength"],
     membership of 'L' / 'R' in `set(start_cond)`, `mc_move == "wf"`, tis_set.get("interface_cap") -/
@@ -161,7 +170,8 @@ def propagate (maxlen : Nat) (left right : Int) (sys : Frame) (reverse : Bool) (
   | some (ops', succ, _) => some (st.take ops'.length, succ)
 
 def propReq (engine : Nat) (maxlen : Nat) (left right : Int) (sys : Frame) (reverse : Bool) : Req :=
-  .propagate engine reverse sys.op (startCfg sys reverse) maxlen left right
+  -- every call site passes `x.copy()` (tis.py:891/898, 939/944, 1143-1144, 1240, 1284)
+  .propagate engine reverse sys.op (startCfg sys reverse) maxlen left right true
 
 /-! ### retis_swap_zero -/
 
@@ -195,7 +205,7 @@ def buildPath0 (e0 e1 : Ens) (allowed : Bool) (old1 : List Frame) (bw : Script) 
       | second1 :: _ =>
         let path0 := appendMax (appendAll [] e0.maxlen tmp.reverse) e0.maxlen second1
         .ok (path0, (if allowed then [propReq 0 (e1.maxlen - 1) e0.i0 e0.i2 first1 true] else [])
-                    ++ [Req.dump 1 1 second1.cfg])
+                    ++ [Req.dump 1 1 second1.cfg true])
 
 /-- step 2 (tis.py:927-957): forward propagation from the last frame of old [0-] with the
     [0+] interfaces into a path of `maxlen1 - 1`; the second-last frame of old [0-] in front. -/
@@ -208,7 +218,7 @@ def buildPath1 (e1 : Ens) (allowed : Bool) (old0 : List Frame) (last0 : Frame) (
       match old0.reverse with
       | _ :: secondLast :: _ =>
         .ok (appendAll (appendMax [] e1.maxlen secondLast) e1.maxlen tmp,
-             [propReq 1 (e1.maxlen - 1) e1.i0 e1.i2 last0 false, Req.dump 0 0 secondLast.cfg])
+             [propReq 1 (e1.maxlen - 1) e1.i0 e1.i2 last0 false, Req.dump 0 0 secondLast.cfg true])
       | _ => .error .index
   else .ok (appendMax [] (e1.maxlen - 1) last0, [])
 
